@@ -29,13 +29,17 @@ MkC(t, A, crs, k) == [hs |-> SumTo(t.sy, Len(t.sy)), ws |-> SumTo(t.sx, Len(t.sx
                       A |-> A, sy |-> t.sy, sx |-> t.sx, dy |-> t.dy, dx |-> t.dx, crs |-> crs, cfg |-> Cfgs[(k % Len(Cfgs)) + 1], pad |-> <<>>, align |-> <<>>]
 Cases(sx) == {MkC(t, <<sx, 0, tx, 0, sy, ty>>, crs, Abs(tx) \div 60 + Abs(ty) \div 60 + Len(t.sy)) : tx \in CShifts, sy \in {Abs(sx), -Abs(sx)}, ty \in {60, 2940, -1980, 7000}, t \in CTilings, crs \in {"same", "other"}}
              \cup {MkC(t, <<0, -sx, tx, sx, 0, ty>>, "same", tx \div 60 + Len(t.sx)) : tx \in {60, 4860, 9000}, ty \in {60, -3000, 7000}, t \in CTilings}
+\* ONE grid: the destination is the source grid itself, or the source grid moved by whole chunks, with the SAME chunking (a destination chunk then coincides with
+\* one source chunk - nothing to resample, but nodata translation and the fill rule still apply); every nodata / mask configuration
+SameTilings == {[sy |-> <<2, 2, 2>>, sx |-> <<3, 3>>, dy |-> <<2, 2, 2>>, dx |-> <<3, 3>>], [sy |-> <<3, 3>>, sx |-> <<2, 2, 2>>, dy |-> <<3, 3>>, dx |-> <<2, 2, 2>>]}
+SameGridCases == UNION {{MkC(t, <<960, 0, tx * 960, 0, 960, ty * 960>>, "same", k) : tx \in {0, t.sx[1], 0 - t.sx[1]}, ty \in {0, t.sy[1]}, k \in 1..Len(Cfgs)} : t \in SameTilings}
 \* chunked reprojection between really different CRSs (curved tile footprints): placement in tenths of the footprint's span
 RealCases == {[op |-> "real", pair |-> pr, dx |-> dx, dy |-> dy, sch |-> sch, dch |-> dch, zoom |-> z] :
                 pr \in {"3575>4326", "32633>4326", "4326>3035", "3577>4326"}, dx \in {-3, 0, 4}, dy \in {-6, 0, 5},
                 sch \in {<<20, 20>>, <<60, 15>>}, dch \in {<<16, 16>>, <<48, 12>>, <<12, 48>>}, z \in {"same", "coarser"}}
 VARIABLE c
 Init == c \in {[k |-> 0]} \cup {[k |-> s] : s \in CScales}
-Next == "k" \in DOMAIN c /\ c' \in (IF c.k = 0 THEN RealCases ELSE {x \in Cases(c.k) : NoTies(x)}) /\ Emit(c')
+Next == "k" \in DOMAIN c /\ c' \in (IF c.k = 0 THEN RealCases ELSE IF c.k = 960 THEN {x \in Cases(c.k) : NoTies(x)} \cup SameGridCases ELSE {x \in Cases(c.k) : NoTies(x)}) /\ Emit(c')
 Spec == Init /\ [][Next]_c
 \* design level: with the transcribed linear dependency path, and with ANY superset of the exact need, chunked = whole
 AsE(x) == [c |-> x, sy |-> x.sy, sx |-> x.sx, dy |-> x.dy, dx |-> x.dx]
